@@ -229,7 +229,15 @@ func GenOp(t *rapid.T, r *Runner, pool *KeyPool, p *GenProfile) Op {
 				w = Op{K: "put", Key: key, VLen: rapid.IntRange(0, 300).Draw(t, "rlen"), VSeed: r.NextSeed()}
 			}
 			at := U(t, 10, "at")
-			if Pct(t, 35, "atrotated") {
+			switch x := U(t, 100, "racekind"); {
+			case x < 12 && w.K == "put":
+				w.K = "bput"
+			case x < 18:
+				w = Op{K: "merge"}
+			}
+			if Pct(t, 12, "atscanned") {
+				at = -2
+			} else if Pct(t, 35, "atrotated") {
 				// between the merge rotation and the start of the scan; sized to make the active file rotate again
 				at = -1
 				if w.K == "put" {
